@@ -20,7 +20,9 @@ HEADER = "Require Import PF.Lib.Tensor PF.Model.Layers PF.Model.LayersRun."
 MODEL_TARGETS = ["Model/LayersRun.vo"]
 SHARD = 12
 RULE = ("one case = (model of the zoo, option variant, task type, explicit small dataset with missing cells and "
-        ">= 2 columns per used stype, 0-3 SGD steps, index lists); distinct = distinct (model, options, task, rows, "
+        ">= 2 columns per used stype, a parameter-state history eval -> (train 1-3 SGD steps -> eval)* of 0-3 rounds "
+        "on one model object with previously used and new batch sizes re-scored after every round, index lists); "
+        "distinct = distinct (model, options, task, rows, "
         "columns, steps, batch kind); non-trivial = forward pass succeeded on a non-empty batch and at least one "
         "row footprint and one column influence were measured")
 TRUSTED = [
@@ -87,7 +89,10 @@ def gen_case(rng, model, opts, task, big=False):
     idxs.append(perm)                                                 # a permutation of the batch
     idxs.append([rng.randrange(n) for _ in range(rng.randint(2, 7))])  # duplicates / other batch composition
     idxs.append(sorted(rng.sample(rows, rng.randint(1, n - 1))))      # a subset
-    case = {"model": model, "opts": opts, "task": task, "data": data, "steps": rng.randint(0, 3),
+    # parameter-state history on ONE model object: eval-score, then for each entry train that many SGD steps,
+    # model.eval(), score again (an inference-time cache that survives training shows up only this way)
+    history = rng.wpick([(2, []), (3, [rng.randint(1, 3)]), (3, [rng.randint(1, 2), rng.randint(1, 2)]), (2, [1, 1, 1])])
+    case = {"model": model, "opts": opts, "task": task, "data": data, "history": history, "steps": sum(history),
             "seed": rng.randrange(1 << 30), "idxs": idxs, "kind": "small"}
     if big:
         # a batch larger than the 512-row ghost batch: the frame's rows repeated
@@ -129,16 +134,59 @@ def run(case):
             tf0 = ds.tensor_frame
             outc = P.out_channels_of(case["data"])
             model = P.build_model(case["model"], case["opts"], ds, outc)
-            P.train_steps(model, tf0, case["steps"])
+            model.eval()
         except Exception as ex:
             obs.update(stage="build", exc=C.exc_name(ex), msg=str(ex)[:300], tb=C.fmt_exc())
             return obs
         try:
+            obs["hist"] = _history(case, tf0, model)
             obs.update(_probe(case, ds, tf0, model, outc))
             obs["ok"] = True
         except Exception as ex:
             obs.update(stage="forward", exc=C.exc_name(ex), msg=str(ex)[:300], tb=C.fmt_exc())
     return obs
+
+
+def _battery(model, tf, sizes, rng):
+    """Score the frame's rows in batches of the given sizes (index lists with duplicates, shuffled) and as a
+    permutation of the whole batch; every score is compared with the same row's score in the full batch."""
+    n = len(tf)
+    out = P.fwd(model, tf)
+    res = [{"what": "two calls on the full batch", "size": n,
+            "diff": 0.0 if torch.equal(out, P.fwd(model, tf)) else float("inf"), "exact": True}]
+    perm = list(range(n))
+    rng.shuffle(perm)
+    lists = [("permuted full batch", perm)]
+    for m in sizes:
+        if m == n:
+            idx = [rng.randrange(n) for _ in range(n)]          # duplicates, in a batch of the full size
+            lists.append(("duplicated rows, full size", idx))
+        elif m == 1:
+            lists.append(("row alone", [rng.randrange(n)]))
+        else:
+            lists.append((f"batch of {m} rows", [rng.randrange(n) for _ in range(m)]))
+    for what, idx in lists:
+        ti = torch.tensor(idx, dtype=torch.long)
+        res.append({"what": what, "size": len(idx), "diff": P.maxdiff(P.fwd(model, tf[ti]), out[ti])})
+    return res
+
+
+def _history(case, tf0, model):
+    """eval -> (train k steps -> eval)* on the same model object.  Batch sizes used in an earlier evaluation phase
+    are used again after training, together with a size never used before."""
+    rng = _prng(case, 2)
+    n = len(tf0)
+    used = [n, 1, 2 if n != 2 else 3]
+    phases = [{"phase": 0, "trained": 0, "sizes": list(used), "runs": _battery(model, tf0, used, rng)}]
+    for p, k in enumerate(case.get("history", []), start=1):
+        P.train_steps(model, tf0, k)
+        fresh = next(m for m in range(2, 40) if m not in used)
+        sizes = list(used) + [fresh]
+        phases.append({"phase": p, "trained": k, "sizes": sizes, "new_size": fresh,
+                       "training_flag": bool(model.training), "runs": _battery(model, tf0, sizes, rng)})
+        used.append(fresh)
+    model.eval()
+    return phases
 
 
 def _probe(case, ds, tf0, model, outc):
@@ -248,6 +296,16 @@ def oracle(case, obs):
     for j, r, ch in obs["col_leak"]:
         return dict(key=f"row-leak:{m}", what=f"{m}: changing cell (row {r}, column {j}) changed the predictions of "
                     f"rows {ch}", expected=[r], observed=ch)
+    for ph in obs.get("hist", []):
+        for rn in ph["runs"]:
+            if not (rn["diff"] <= (0.0 if rn.get("exact") else P.TOL)):
+                if rn.get("exact"):
+                    return dict(key=f"non-deterministic:{m}", what=f"{m}: two evaluation calls on the same batch differ "
+                                f"(after {ph['phase']} train/eval rounds)")
+                return dict(key=f"batch-dependent:{m}", what=f"{m}: after {ph['phase']} train->eval round(s) on the same "
+                            f"model object (batch sizes scored so far {ph['sizes']}), {rn['what']} (size {rn['size']}) "
+                            f"differs from the same rows in the full batch by {rn['diff']:.3g}",
+                            expected=f"<= {P.TOL}", observed=rn["diff"], phase=ph["phase"])
     for mt in obs["meta"]:
         if not (mt["diff"] <= P.TOL):
             what = mt.get("what", f"index list of {mt.get('idx_len')} rows")
@@ -265,8 +323,14 @@ def oracle(case, obs):
 
 
 def shrink(case):
-    if case["steps"] > 0:
-        yield dict(case, steps=0)
+    h = case.get("history", [])
+    for k in range(len(h)):
+        h2 = h[:k] + h[k + 1:]
+        yield dict(case, history=h2, steps=sum(h2))
+    for k in range(len(h)):
+        if h[k] > 1:
+            h2 = h[:k] + [1] + h[k + 1:]
+            yield dict(case, history=h2, steps=sum(h2))
     if len(case["idxs"]) > 1:
         for k in range(len(case["idxs"])):
             yield dict(case, idxs=case["idxs"][:k] + case["idxs"][k + 1:])
@@ -285,7 +349,7 @@ def nontrivial_sig(case, obs):
     if not obs.get("ok") or obs["n"] == 0 or not obs["rows"] or not obs["cols"]:
         return None
     return json.dumps([case["model"], sorted(case["opts"].items(), key=str), case["task"], obs["n"], obs["ncols"],
-                       case["steps"], case["kind"]])
+                       case.get("history", []), case["kind"]])
 
 
 def stats(cases, obss):
@@ -295,6 +359,9 @@ def stats(cases, obss):
         if c is None:
             continue
         d["total"] += 1
+        d.setdefault("histories", {})
+        hk = str(c.get("history", []))
+        d["histories"][hk] = d["histories"].get(hk, 0) + 1
         for k, v in (("models", c["model"]), ("tasks", c["task"]), ("steps", c["steps"]), ("kinds", c["kind"])):
             d[k][str(v)] = d[k].get(str(v), 0) + 1
         if not o.get("ok"):
